@@ -13,14 +13,38 @@ fn u(v: &Value) -> u64 {
 }
 
 // ---------- order-preserving relabelling of variable ids ("lift") ----------
-// The judge works with ids below 2^31.  An event that carries "lift": "A"|"B"|"C"|"D" is executed with every variable
+// The judge works with ids below 2^31.  An event that carries "lift": "A"|"B"|"C"|"D"|"E" is executed with every variable
 // id x replaced by a 64-bit id (strictly monotone in x, so sorted output stays sorted) and its observations are
 // mapped back before they are logged.  An id the code under test returns that is not the image of any id is logged
 // as NOT_AN_IMAGE, an id no vector uses, so the judge rejects it.
 thread_local! { static LIFT: std::cell::Cell<u8> = const { std::cell::Cell::new(0) }; }
+thread_local! { static LIFT_TOP: std::cell::Cell<u64> = const { std::cell::Cell::new(0) }; }
+/// mode E needs the largest variable id of the vector: it becomes u64::MAX, the others follow directly below it
+pub fn set_lift_top(m: u64) {
+    LIFT_TOP.with(|t| t.set(m));
+}
+/// largest variable id mentioned anywhere in a function-level vector
+pub fn max_var_id(v: &Value) -> u64 {
+    match v {
+        Value::Object(o) => o.iter().map(|(k, x)| match (k.as_str(), x) {
+            ("id", Value::Number(n)) => n.as_u64().unwrap_or(0),
+            ("ids" | "rows" | "columns", Value::Array(a)) => a.iter().filter_map(|n| n.as_u64()).max().unwrap_or(0),
+            ("st" | "repl" | "box" | "terms" | "entries", Value::Array(a)) => a.iter().map(|e| match e {
+                Value::Array(p) => p.first().and_then(|n| n.as_u64()).unwrap_or(0)
+                    .max(if k == "entries" { p.get(1).and_then(|n| n.as_u64()).unwrap_or(0) } else { 0 })
+                    .max(match p.first() { Some(Value::Array(ids)) => ids.iter().filter_map(|n| n.as_u64()).max().unwrap_or(0), _ => 0 })
+                    .max(p.first().map(max_var_id).unwrap_or(0)).max(p.get(1).map(max_var_id).unwrap_or(0)),
+                other => max_var_id(other),
+            }).max().unwrap_or(0),
+            (_, other) => max_var_id(other),
+        }).max().unwrap_or(0),
+        Value::Array(a) => a.iter().map(max_var_id).max().unwrap_or(0),
+        _ => 0,
+    }
+}
 pub const NOT_AN_IMAGE: u64 = 999_983;
 pub fn set_lift(mode: Option<&str>) {
-    LIFT.with(|l| l.set(match mode { Some("A") => 1, Some("B") => 2, Some("C") => 3, Some("D") => 4, _ => 0 }));
+    LIFT.with(|l| l.set(match mode { Some("A") => 1, Some("B") => 2, Some("C") => 3, Some("D") => 4, Some("E") => 5, _ => 0 }));
 }
 pub fn up(x: u64) -> u64 {
     match LIFT.with(|l| l.get()) {
@@ -29,7 +53,8 @@ pub fn up(x: u64) -> u64 {
         1 => x << 32,                                  // low word zero: truncation to 32 bits collapses all ids
         2 => (x << 32) | 0xFFFF_FFFF,                  // low word all ones
         3 => u64::MAX - 0xFFFF_FFFF + x,               // top of the u64 range (2^32-1 |-> u64::MAX)
-        _ => if x < 2 { x } else { u64::MAX - 0xFFFF_FFFF + x }, // mixed: ids 0 and 1 stay, the others go above 2^63
+        4 => if x < 2 { x } else { u64::MAX - 0xFFFF_FFFF + x }, // mixed: ids 0 and 1 stay, the others go above 2^63
+        _ => u64::MAX - (LIFT_TOP.with(|t| t.get()).max(x) - x),    // the largest id of the vector becomes u64::MAX itself
     }
 }
 pub fn down(y: u64) -> u64 {
@@ -38,7 +63,8 @@ pub fn down(y: u64) -> u64 {
         1 => if y & 0xFFFF_FFFF == 0 { y >> 32 } else { NOT_AN_IMAGE },
         2 => if y & 0xFFFF_FFFF == 0xFFFF_FFFF { y >> 32 } else { NOT_AN_IMAGE },
         3 => if y >= u64::MAX - 0xFFFF_FFFF { y - (u64::MAX - 0xFFFF_FFFF) } else { NOT_AN_IMAGE },
-        _ => if y < 2 { y } else if y >= u64::MAX - 0xFFFF_FFFF + 2 { y - (u64::MAX - 0xFFFF_FFFF) } else { NOT_AN_IMAGE },
+        4 => if y < 2 { y } else if y >= u64::MAX - 0xFFFF_FFFF + 2 { y - (u64::MAX - 0xFFFF_FFFF) } else { NOT_AN_IMAGE },
+        _ => { let top = LIFT_TOP.with(|t| t.get()); if y >= u64::MAX - top { top - (u64::MAX - y) } else { NOT_AN_IMAGE } }
     }
 }
 /// a variable (or parameter) id read from a vector
